@@ -119,6 +119,9 @@ func (rn *Runner) Open(db *Db) {
 	})
 }
 
+// DbSexp is the `(db …) (setup …)` part of a payload for the current database.
+func (rn *Runner) DbSexp() string { return rn.dbS }
+
 // Exec runs one statement on the current engine.
 func (rn *Runner) Exec(sqlText string) *eng.Res { return rn.e.Query(rn.ctx, sqlText) }
 
